@@ -10,7 +10,9 @@ formula, each a Monte-Carlo integral over its own draw variables, N != R and N =
 depth bound of Database.remove (first / last observation), Database.scale_column, Database.add_column, another
 Monte-Carlo formula evaluated alone with R + 1 draws, a second live model with R + 1 draws on the same database,
 and the observations simulate / calculate_likelihood / calculate_likelihood_and_derivatives, each compared with
-the mean over the model's own R draws for the observations currently in the table.
+the mean over the model's own R draws for the observations currently in the table.  One name of draws declared
+with two types (all ordered pairs of user-defined and native Halton types x 6 entry modes): refused, or each
+integral is the mean over the series of its own declared type.
 """
 from __future__ import annotations
 
@@ -27,7 +29,7 @@ LEVEL = 'exploration'
 TECHNIQUE = 'bounded exhaustive enumeration of integrands x R x N x draw-variable sets x generators on the real engine, and of edit/use histories on one live model, vs a plain-Python mean over the logged draw series; closed forms for Integrate; hyper-dual derivatives for Derive'
 RULE = ('one case = one (integrand, draw-variable set, R, N, parameter point) Monte-Carlo evaluation, one (native type, seed) reproducibility run, '
         'one (integrand, parameter) integral, one (formula, name) derivative, or one history (sequence of table edits through the Database interface, '
-        'other evaluations on the same database and uses of one live model, every use checked). Non-trivial = the formula contains at least one draw variable / the '
+        'other evaluations on the same database and uses of one live model, every use checked), or one (ordered pair of types under one draw name, entry mode, N, R). Non-trivial = the formula contains at least one draw variable / the '
         'random variable / depends on the derived name / the history holds at least one operation that is not an observation; distinct = distinct tuples.')
 ASSUMPTIONS = [
     'Integrate is compared with closed forms / an independent Simpson quadrature at tolerance 1e-6 (smooth, normally decaying integrands only)',
@@ -165,7 +167,15 @@ def tasks(tier, seed):
     t.append(dict(part='integrate', tier=tier))
     t.append(dict(part='derive'))
     t.extend(edit_tasks(tier))
+    types = TWO_TYPES if tier == 'quick' else TWO_TYPES + [x for x in NATIVE_TYPES if 'HALTON' in x and x not in TWO_TYPES]
+    for ta, tb in itertools.permutations(types, 2):
+        t.append(dict(part='twotypes', types=[ta, tb]))
     return t
+
+
+# ONE name of draws declared with TWO types (user-defined and deterministic native types): the library may refuse; if it
+# answers, every integral is the mean over the series of the type ITS OWN draw variable declares
+TWO_TYPES = ['Uniform', 'normal_halton2', 'DET_C', 'UNIFORM_HALTON2', 'NORMAL_HALTON2', 'UNIFORMSYM_HALTON3']
 
 
 # ---- histories on ONE live model object while the table is edited through the Database interface -------------------------
@@ -201,7 +211,12 @@ def edit_tasks(tier):
         cfgs += [('B', 4, 2, EDIT_OPS_REDUCED, obs2, 5), ('A', 5, 2, EDIT_OPS_REDUCED, obs2, 5), ('B', 5, 3, EDIT_OPS_REDUCED, obs2, 6)]
     t = []
     for lay, n, r, ops, obs, depth in cfgs:
-        for prefix in itertools.product(ops + obs, repeat=max(1, depth - (2 if len(ops + obs) >= 7 else 3))):
+        prefixes = list(itertools.product(ops + obs, repeat=max(1, depth - (2 if len(ops + obs) >= 7 else 3))))
+
+        def first_checked_edit(pf):      # simplest first: the chunks whose prefix already holds an edit followed by an observation
+            return min([j for j in range(1, len(pf)) if pf[j] in obs and any(o in ops for o in pf[:j])] or [len(pf)])
+
+        for prefix in sorted(prefixes, key=first_checked_edit):
             t.append(dict(part='edit', layout=lay, nobs=n, R=r, ops=list(ops), obs=list(obs), depth=depth, prefix=list(prefix)))
     return t
 
@@ -235,6 +250,8 @@ def run_task(task):
         _derive(rec)
     elif part == 'edit':
         _edit(task, rec)
+    elif part == 'twotypes':
+        _twotypes(task, rec)
     return rec.result()
 
 
@@ -750,6 +767,7 @@ def _edit(task, rec):
         return len(got) == len(want) and all(close(g, w, 1e-9) for g, w in zip(got, want))
 
     cfg = (task['layout'], n0, Rn)
+    reported = set()
     for h in hists:
         case = dict(task, only=list(h))
         db, rows = make_db(n0, [], EDIT_COLS)
@@ -757,9 +775,13 @@ def _edit(task, rec):
         last_edit, nadd, observed, skipped, other = 'none', 0, [], False, None
 
         def bad(clause, entry, what, want=None, got=None):
+            done = list(h[:step + 1])             # the executed part of the history is the witness
+            if (clause, entry, tuple(done)) in reported:
+                return
+            reported.add((clause, entry, tuple(done)))
             rec.violation(f'C10|{clause}|live-model:after-{last_edit}:{entry}',
-                          f'{what} [layout {task["layout"]}: log_like over {lay["ll"]}, v over {lay["v"]}; N0={n0} R={Rn}; history {list(h)}, '
-                          f'{len(rows)} observations now]', case, expected=want, observed=got)
+                          f'{what} [layout {task["layout"]}: log_like over {lay["ll"]}, v over {lay["v"]}; N0={n0} R={Rn}; history {done}, '
+                          f'{len(rows)} observations now]', dict(case, only=done), expected=want, observed=got)
 
         step = -1
         try:
@@ -847,11 +869,103 @@ def _edit(task, rec):
     rec.sample(dict(part='edit', layout=task['layout'], nobs=n0, R=Rn, depth=task['depth'], first_history=list(hists[0]), histories=len(hists)))
 
 
+def _twotypes(task, rec):
+    """bioDraws(name, T1) and bioDraws(name, T2), T1 != T2, under ONE name: in two formulas of one model (simulate; likelihood
+    of one + simulate), in one formula (two integrals, one integral), through BIOGEME and through get_value_c.  Either the
+    library refuses with its own error, or every value is the mean over the series of the declared type of each variable
+    (= the value of the same formulas with two distinct names)."""
+    import numpy as np
+    from biogeme.exceptions import BiogemeError
+    from vf.engine import make_biogeme
+    ta, tb = task['types']
+    spec = {nm: (v, None, None, 0) for nm, v in PARAMS[0].items()}
+    p = PARAMS[1]
+
+    def forms(n1, n2):
+        d1, d2 = ('draw', n1, ta), ('draw', n2, tb)
+        g1 = ('+', B('b1'), ('*', B('s'), d1))
+        g2 = ('*', V('x1'), ('*', d2, d2))
+        return dict(f1=('mc', g1), f2=('mc', g2), two=('+', ('mc', g1), ('*', ('num', 2.0), ('mc', g2))), one=('mc', ('+', g1, g2)))
+
+    for nobs, Rn in ((3, 2), (2, 3)):
+        # the series of each type: the deterministic pattern (user-defined types) / the table the database exposes when the
+        # two variables carry distinct names (native Halton types: deterministic)
+        dbr, rows = make_db(nobs, [])
+        ref = forms('a__1', 'a__2')
+        R.Builder(spec).build(ref['one']).get_value_c(database=dbr, betas=dict(p), number_of_draws=Rn, prepare_ids=True)
+        table = dbr.theDraws
+        series = []
+        for slot, typ in enumerate((ta, tb)):
+            if typ in PATTERN:
+                series.append([[PATTERN[typ](i, r) for r in range(Rn)] for i in range(nobs)])
+            else:
+                series.append([[float(table[i, r, slot]) for r in range(Rn)] for i in range(nobs)])
+        want = {k: [R.evaluate(f, row=row, params=p, draws={'a__1': series[0][i], 'a__2': series[1][i]}) for i, row in enumerate(rows)]
+                for k, f in ref.items()}
+        lib = forms('a', 'a')
+        build = lambda k: R.Builder(spec).build(lib[k])
+
+        def two_sim(db):
+            b = make_biogeme(db, {'f1': build('f1'), 'f2': build('f2')}, number_of_draws=Rn)
+            out = b.simulate({nm: p[nm] for nm in b.free_beta_names})
+            return {k: [float(v) for v in out[k]] for k in ('f1', 'f2')}
+
+        def ll_sim(db):
+            b = make_biogeme(db, {'log_like': build('f1'), 'f2': build('f2')}, number_of_draws=Rn)
+            ll = float(b.calculate_likelihood(np.array([p[nm] for nm in b.free_beta_names], dtype=float), scaled=False))
+            out = b.simulate({nm: p[nm] for nm in b.free_beta_names})
+            return {'sum-f1': [ll], 'f1': [float(v) for v in out['log_like']], 'f2': [float(v) for v in out['f2']]}
+
+        def one_sim(k):
+            def run(db):
+                b = make_biogeme(db, {k: build(k)}, number_of_draws=Rn)
+                return {k: [float(v) for v in b.simulate({nm: p[nm] for nm in b.free_beta_names})[k]]}
+            return run
+
+        def alone(k):
+            def run(db):
+                return {k: [float(v) for v in build(k).get_value_c(database=db, betas=dict(p), number_of_draws=Rn, prepare_ids=True)]}
+            return run
+
+        want['sum-f1'] = [sum(want['f1'])]
+        modes = {'two-formulas-of-one-model:simulate': two_sim, 'log-likelihood-and-formula:calculate_likelihood+simulate': ll_sim,
+                 'one-formula-two-integrals:simulate': one_sim('two'), 'one-integral:simulate': one_sim('one'),
+                 'one-formula-two-integrals:get_value_c': alone('two'), 'one-integral:get_value_c': alone('one')}
+        for mode, run in modes.items():
+            case = dict(task)
+            key = ('twotypes', ta, tb, nobs, Rn, mode)
+            db, _ = make_db(nobs, [])
+            try:
+                got = run(db)
+            except BiogemeError as e:
+                rec.case(key, ('refused', mode), outcome='one-name-two-types-refused')
+                continue
+            except Exception as e:
+                rec.case(key, ('raised', type(e).__name__), outcome='raised')
+                rec.violation(f'C10|raised-{type(e).__name__}|one-draw-name-two-types:{mode}',
+                              f'bioDraws("a", {ta}) and bioDraws("a", {tb}), N={nobs} R={Rn}: {str(e)[:200]}', case)
+                rec.retire = True
+                return
+            rec.case(key, (ta, tb, nobs, Rn, mode, {k: [round(v, 9) for v in vs] for k, vs in got.items()}), outcome='one-name-two-types-answered')
+            for k, vs in got.items():
+                if len(vs) != len(want[k]) or any(not close(g, w, 1e-9) for g, w in zip(vs, want[k])):
+                    site = ('two-formulas-of-one-model' if mode.split(':')[0] in ('two-formulas-of-one-model', 'log-likelihood-and-formula')
+                            else 'one-formula:' + ('get_value_c' if mode.endswith('get_value_c') else 'BIOGEME'))
+                    rec.violation(f'C10|monte-carlo-value-not-mean-over-own-series|one-draw-name-two-types:{site}',
+                                  f'bioDraws("a", {ta}) and bioDraws("a", {tb}) under one name, {mode}, N={nobs} R={Rn}: accepted, {k} = {vs}, but the '
+                                  f'mean over the series of the declared types is {want[k]}', case, expected=want[k], observed=vs)
+                    break
+    rec.sample(dict(part='twotypes', types=task['types']))
+
+
 def replay(case):
     rec = Rec()
     part = case['part']
     if part == 'edit':
         _edit(case, rec)
+        return rec.violations
+    if part == 'twotypes':
+        _twotypes(case, rec)
         return rec.violations
     if part == 'mc':
         _mc(case, rec)
